@@ -12,7 +12,7 @@ MANIFEST = {
     "C02": {
         "technique": "Lean 4 proof: pointer-level model of HashMap/HashSet/PoolMap (cell back-pointers, nextCell chains, prev/next list with owned end sentinel, free list, item blocks) simulated by a chain-list model, which refines an insertion-ordered association list, for every capacity, hash function and op list (induction over op lists), incl. the members called with the object itself as argument; TIE BY TRANSLATION: the bodies of find/insert/remove/clear/swap/operator=/operator==/bulk append and remove/size/isEmpty/contains/front/back/append/prepend of the three headers are regenerated as Lean functions from the current sources on every run (tools/gen_hash.py) and proved equal to the model steps, and the refinement theorem is proved for the machine that executes the translated bodies; hash functions translated from Base.hpp / String.hpp with in-bounds and equal-keys-equal-codes theorems over the translation + differential correspondence of the chain-list model and the translated-bodies machine vs the real headers",
         "text": "Theorems over all operation histories (32 operations: constructors of any capacity, copy, assignment, append/prepend/positional insert, remove by key/iterator/value address, removeFront/Back, clear, swap, bulk append/remove with any overlap, a = a, a.swap(a), a.append(a), a.remove(a), value update, all queries incl. forward and BACKWARD iteration, dereferencing at a position, == and != also of a table with itself), all capacities >= 1 and all hash functions (hence every collision pattern) of the Lean models: results, iteration, equality and returned iterators equal those of the association-list specification; chains partition the live items by hash % capacity; cell back-pointers designate the referring cell; an existing key keeps its position (HashMap updates the value, HashSet/PoolMap untouched); self-append changes nothing, self-remove empties; backward iteration over the pointer structure is the reverse of the insertion order. The code as written: for HashMap, HashSet and PoolMap each, the bodies of find, insert(position, key[, value]), remove(iterator), remove(key), PoolMap remove(const V&), removeFront, removeBack, clear, swap(other), operator=, operator==, HashSet append(other)/remove(other), size, isEmpty, contains, front/back (all overloads), append, prepend, and the same bodies with other = the object itself are translated statement by statement from the current headers and proved equal to the steps of the pointer-level model (find, clear, swap, operator=, operator==, bulk append, the one-liners: on EVERY table; insert and remove, which re-read item->nextCell / item->cell / insertPos->prev after a store: on every table that represents a model state); gen_refines: the machine that executes the translated bodies returns, for every container kind, hash function, block size, capacities and operation history, exactly the results of the association-list specification. Client corollary: a HashSet keyed by addresses through the translated hash(const void*) with any bucket count, under the members Server calls on _closingClients, is exactly the plain list the C14 model keeps. The hash functions the library provides (nine integral/pointer overloads left active by the preprocessor, hash(const String&)) are translated from the current sources: String hash reads stay within text + terminator for every length, equal strings have equal codes whatever memory they point into (owned, literal, shared, attached unterminated view), integral overloads are functions of the bit pattern. On every run identical op lines are executed on the real code and, in lock-step, on the chain-list model and on the machine with the translated bodies (exhaustive small scope + random histories, capacities 0,1,2,3,8,500, five hash functions incl. constant, ASan/UBSan, forward/backward traversal, white-box comparison of every bucket chain, the free list and the order list as canonical item ids; a second build with nstd String keys materialised in twelve forms and the library's hash(const String&) whose key texts collide; a third build with -O2 and no sanitizers) and compared with an independent Python association-list reference.",
-        "note": "Trusted: Lean kernel + the three standard axioms; the translators: tools/gen_hash.py (container bodies: tokenizer + parser of a small C++ subset, refuses everything else; conventions: nullable Item* = Option, dereferencing null / a field other than prev of a sentinel = fault, Item** = cell reference, (a = b)->f = c evaluates c, b, then stores, a read is repeated after every store, loops carry a fuel argument that starts as the size of the walked table, pointers into other's list read other's heap, swap symbolically over two heaps; its output is executed against the real code on every op line) and the two of tools/areas/hash.py (class constants; hash function bodies; type widths probed with the compiler; output run against the real functions by hashstr/hashnum/hashptr lines); the heap primitives the generated code is written in (setCell/setPrev/setNext/writeCell/readCell/prevOf/setPrevOf/constructAt of PtrModel.lean and GenSupport.lean). HAND-translated and only tied by the correspondence run: the constructors incl. the copy constructor (initial member values), the bucket array allocation and the item block allocation inside insert (recognised as a whole by their shape and replaced by allocBuckets / newBlockFirst / newBlockAll; N tied by the constants translator), the one-line members of Iterator (++, --, key, *, ->, ==, != : `it != _end` inside the translated bodies is read as comparison of the item pointers), the destructor. Abstractions of the model: one node heap per table (swap exchanges heaps as the code exchanges `blocks`), item addresses are block*ipb+slot numbers, fuel for loops (proved sufficient: no reachable fault), container keys/values are naturals with = and the container theorems take the hash function as an arbitrary parameter (consistency of hash and == of the key type is the assumption; proved for the library's own String and integral overloads), allocation never fails, destructors/constructors of elements are no-ops (element life-cycle: property C04). usize is 64 bit and char signed on this target (probed; the theorems are re-proved for what the probe says). The value of a hash code is compared between implementation and translated model only (no independent formula). The const overloads of ++/-- are run as op lines against the model op of the non-const member (same fields read). The proofs of insert / remove(iterator) / PoolMap remove(const V&) evaluate every read through the stores before it and compare heaps pointwise, so they hold for any statement order of the body that computes the same heap (harmless change C02-h1 re-proves); the loop lemmas and the name / parameter list of the function holding the link half of insert (insert_k1) follow the current code: a restructuring there can break an obligation although the property holds (reported without failing input). Proofs that depend on the shape of a body are alternatives (`first | shape of the header | other shape`): besides the header's shape, the helper shape of find / insert (findInChain, allocateItem, linkIntoChain, linkBefore), loops of operator= / the copy constructor in a helper or member, operator== with its cursors as locals, swap with a this == &other guard and an anchor() helper, remove with hoisted reads and commuted stores are covered (harmless C02-h4, C02-h6); other shapes can break an obligation although the property holds. The constructors are steps of gstep under the class-constant invariant (default capacity of every table = the header's; kept by every step). Open: a clear() that zeroes the whole bucket array (harmless C02-h5) leaves other garbage in the nextCell fields of released items, so it equals the model's clear only up to fields nobody reads (would need a simulation statement).",
+        "note": "Trusted: Lean kernel + the three standard axioms; the translators: tools/gen_hash.py (container bodies: tokenizer + parser of a small C++ subset, refuses everything else; conventions: nullable Item* = Option, dereferencing null / a field other than prev of a sentinel = fault, Item** = cell reference, (a = b)->f = c evaluates c, b, then stores, a read is repeated after every store, loops carry a fuel argument that starts as the size of the walked table, pointers into other's list read other's heap, swap symbolically over two heaps; its output is executed against the real code on every op line) and the two of tools/areas/hash.py (class constants; hash function bodies; type widths probed with the compiler; output run against the real functions by hashstr/hashnum/hashptr lines); the heap primitives the generated code is written in (setCell/setPrev/setNext/writeCell/readCell/prevOf/setPrevOf/constructAt of PtrModel.lean and GenSupport.lean). HAND-translated and only tied by the correspondence run: the constructors incl. the copy constructor (initial member values), the bucket array allocation and the item block allocation inside insert (recognised as a whole by their shape and replaced by allocBuckets / newBlockFirst / newBlockAll; N tied by the constants translator), the one-line members of Iterator (++, --, key, *, ->, ==, != : `it != _end` inside the translated bodies is read as comparison of the item pointers), the destructor. Abstractions of the model: one node heap per table (swap exchanges heaps as the code exchanges `blocks`), item addresses are block*ipb+slot numbers, fuel for loops (proved sufficient: no reachable fault), container keys/values are naturals with = and the container theorems take the hash function as an arbitrary parameter (consistency of hash and == of the key type is the assumption; proved for the library's own String and integral overloads), allocation never fails, destructors/constructors of elements are no-ops (element life-cycle: property C04). usize is 64 bit and char signed on this target (probed; the theorems are re-proved for what the probe says). The value of a hash code is compared between implementation and translated model only (no independent formula). The const overloads of ++/-- are run as op lines against the model op of the non-const member (same fields read). The proofs of insert / remove(iterator) / PoolMap remove(const V&) evaluate every read through the stores before it and compare heaps pointwise, so they hold for any statement order of the body that computes the same heap (harmless change C02-h1 re-proves); the loop lemmas and the name / parameter list of the function holding the link half of insert (insert_k1) follow the current code: a restructuring there can break an obligation although the property holds (reported without failing input). Proofs that depend on the shape of a body are alternatives (`first | shape of the header | other shape`): besides the header's shape, the helper shape of find / insert (findInChain, allocateItem, linkIntoChain, linkBefore), loops of operator= / the copy constructor in a helper or member, operator== with its cursors as locals, swap with a this == &other guard and an anchor() helper, remove with hoisted reads and commuted stores are covered (harmless C02-h4, C02-h6); other shapes can break an obligation although the property holds. The constructors are steps of gstep under the class-constant invariant (default capacity of every table = the header's; kept by every step). clear() and operator= of the translated code are tied as SIMULATIONS of the chain-list model (the table they leave represents t.clear / t.assignFrom; the coupling says nothing about cell / nextCell / next of released items), all other members as equations with the pointer-level model; gen_refines goes through the run-level simulation grun_sim. Open: the simulation proof of clear() exists for the per-item loop of the current header only; a clear() that zeroes the whole bucket array and splices the list onto the free list (harmless C02-h5) is still a broken obligation without failing input.",
         "design_ref": "DESIGN.md 3/C02",
     }
 }
